@@ -6718,6 +6718,9 @@ ZSTD_copySequencesToSeqStoreNoBlockDelim(ZSTD_CCtx* cctx, ZSTD_sequencePosition*
         U32 const rawOffset = currSeq.offset;
         U32 offBase;
 
+        /* the position arithmetic below is done in 32 bits */
+        RETURN_ERROR_IF((U64)currSeq.litLength + currSeq.matchLength > (U64)0xFFFFFFFFU, externalSequences_invalid,
+                        "a single sequence covers more than 4 GB");
         /* Modify the sequence depending on where endPosInSequence lies */
         if (endPosInSequence >= currSeq.litLength + currSeq.matchLength) {
             if (startPosInSequence >= litLength) {
@@ -6758,6 +6761,11 @@ ZSTD_copySequencesToSeqStoreNoBlockDelim(ZSTD_CCtx* cctx, ZSTD_sequencePosition*
                      * should go. We prefer to do this whenever it is not necessary to split the match, or if doing so
                      * would cause the first half of the match to be too small
                      */
+                    if (startPosInSequence >= currSeq.litLength) {
+                        /* this block starts inside the match (split by a previous block) : there is nothing of this
+                         * block to give back ; its bytes are stored as literals and the match resumes in the next block */
+                        break;
+                    }
                     bytesAdjustment = endPosInSequence - currSeq.litLength;
                     endPosInSequence = currSeq.litLength;
                     break;
